@@ -90,6 +90,10 @@ func runC03(w *W) {
 	if respBase {
 		sch.AddInclude("base.thrift", baseIDL)
 		sch.Root.St.RawFields = append(sch.Root.St.RawFields, "255: base.BaseResp BaseResp")
+		if t.Chance(1, 2, "sch.respbase.both") && sch.Root.St.ByID(254) == nil {
+			// a struct used as request and as response declares both bases (the request base is absent from the messages)
+			sch.Root.St.RawFields = append(sch.Root.St.RawFields, "254: base.Base Base")
+		}
 		sch.IDL = renderIDL(sch)
 		po.EnableThriftBase = true
 		w.Count("worlds_with_response_base")
